@@ -30,7 +30,7 @@ Definition addrout_eqb (a b : addrout) : bool :=
      - the code accepts what the model rejects (then "validate = VOk => Must* defined" would not transfer);
      - a helper the model proves defined panics.
    For the validators whose guards were added by the repairs of C20-1/2/3/6 (Params, MsgUpdateParams, MsgBridgeCall,
-   MsgBridgeCallClaim, the MsgConfirm handler entry, and the two ante functions repaired for C20-4/5) the comparison is EXACT: same class and the model's tag is a
+   MsgBridgeCallClaim, the MsgConfirm handler entry, the two ante functions repaired for C20-4/5, and CrossChainArgs repaired for C20-9) the comparison is EXACT: same class and the model's tag is a
    prefix of the Go error text — so the removal, weakening or reordering of any of those guards is a mismatch even
    when it does not (yet) lead to a panic.  Elsewhere the code being stricter than the model is not flagged. *)
 Definition v_mismatch (m : vres) (o : obs) : bool :=
@@ -51,6 +51,7 @@ Definition exact_input (i : vinput) : bool :=
   match i with
   | I_Params _ | I_MsgUpdateParams _ | I_MsgBridgeCall _ | I_MsgConfirm _ | I_Claim (ClBridgeCall _) => true
   | I_PubKeyDecorator _ _ | I_MultisigGas _ _ _ _ => true
+  | I_CrosschainArgs (CA_CrossChain _ _ _ _ _) => true
   | I_MsgClaim m => match mc_claim m with AnyIs (ClBridgeCall _) => true | _ => false end
   | _ => false
   end.
